@@ -286,6 +286,14 @@ for n, unw in ((2, 26), (6, 26), (12, 26)):
       functions=GATE_FUNCS + X64_CORE_FUNCS,
       symbolic="two equal arbitrary ASCII strings of length <= %d" % n,
       bounds="signature strings up to %d bytes" % n, assumptions=API_ASSUME)
+H("sig_gate_will_execute_differs_6", variant="x64-linux", modules=["rt", "gates"],
+  expected=[MISMATCH], must_reach=[0], functions=GATE_FUNCS + ["WhenCalledBuilder::will_execute", "fake! expansion", "InjectorPP::when_called_unchecked"],
+  symbolic="target signature: any ASCII string <= 6 bytes (never the fake's), or the empty signature through when_called_unchecked; replacement: a fake! pair (type-carrying)",
+  bounds="signature strings up to 6 bytes", assumptions=API_ASSUME)
+H("bool_gate_refuses_not_ending_in_bool_8", variant="x64-linux", modules=["rt", "gates"],
+  expected=[MISMATCH], must_reach=[0], functions=GATE_FUNCS + ["InjectorPP::when_called_unchecked"],
+  symbolic="every ASCII signature string <= 8 bytes that does not end in `bool` (incl. the empty one), through when_called and when_called_unchecked",
+  bounds="signature strings up to 8 bytes", assumptions=API_ASSUME + TRIM_ASSUME)
 H("sig_gate_async_differs_6", variant="x64-linux", modules=["rt", "gates"],
   expected=[MISMATCH], must_reach=[0], functions=GATE_FUNCS,
   symbolic="two differing ASCII strings <= 6 bytes as recorded output signatures of an async target and its replacement",
@@ -385,7 +393,7 @@ PROPERTIES = {
         seed_rotation=['x64_api_flavours', 'a64_core_boolean', 'panic_at_p4', 'normal_exit_p5'],
         level_text="Bounded model checking of restoration: (a) one installation from an arbitrary entry state restores byte-for-byte for every address placement (the inductive step: each guard puts back exactly what it overwrote); (b) histories through the public API with K=2 functions and L<=2 (quick) / L<=3 (thorough) installations with symbolic targets and kinds, including the same function several times: while the injector lives the latest installation is in effect, after drop every entry equals its original image; two consecutive lifetimes; L<=3 on the 32-bit ARM variant (same drop logic, cheaper encoding).",
         level_note="Histories longer than 3 installations are outside the bound; the stack argument (guards released newest first, each restoring what it saved) is exercised in full at L=3 but is not proved for unbounded L. Allocator replaced by its contract in history harnesses. Unwinding is modelled as scope exit (C05).",
-        quick=["x64_core_redirect", "x64_core_boolean", "x64_api_hist_l1", "arm_api_same2", "arm_api_same3", "panic_at_p2"],
+        quick=["x64_core_redirect", "x64_core_boolean", "x64_api_hist_l1", "x64_alloc_any_4k", "arm_api_same2", "arm_api_same3", "panic_at_p2"],
         thorough=["x64_core_redirect", "x64_core_boolean", "x64_api_hist_l1", "x64_api_hist_l2", "x64_api_hist_l3", "x64_api_hist_l1x2", "arm_api_same2", "arm_api_same3", "a64_core_redirect"],
         timeout_min={"quick": 25, "thorough": 180},
         outside=["histories longer than L=3", "more than two distinct functions per history", "fake kinds other than redirect/forced boolean in histories (closure/fake!/async reach the same guard constructor; see C01/C14)"],
@@ -463,8 +471,8 @@ PROPERTIES = {
         seed_rotation=['sig_gate_differs_12', 'sig_gate_equal_12'],
         level_text="The gate is decided to be EXACT string equality for all pairs of recorded signatures up to the bound: for every two differing ASCII strings (length <= 2 and <= 6 quick / 12 thorough; the 2-byte bound stays decidable even when a changed comparison drags Unicode tables into the formula) the type-checked installation calls (will_execute_raw, will_return_async) do not return and the simulated machine sees no write, no mprotect and no mmap before the panic; for every two equal strings the installation completes. This rules out prefix / suffix / return-type-only weakenings of the comparison. Null pointers are refused by FuncPtr::new. Typed/unchecked mixes are the instances with one empty string.",
         level_note="The link from TYPES to STRINGS (std::any::type_name spelling differs for structurally different fn-pointer types) is a compiler fact, checked as a separate native premise over a generated family of types through every macro form; pairs differing only in lifetimes are reported, not judged.",
-        quick=["sig_gate_differs_2", "sig_gate_equal_2", "sig_gate_differs_6", "sig_gate_equal_6", "sig_gate_async_differs_6", "null_pointer_refused"],
-        thorough=["sig_gate_differs_2", "sig_gate_equal_2", "sig_gate_differs_6", "sig_gate_equal_6", "sig_gate_differs_12", "sig_gate_equal_12", "sig_gate_async_differs_6", "null_pointer_refused"],
+        quick=["sig_gate_differs_2", "sig_gate_equal_2", "sig_gate_differs_6", "sig_gate_equal_6", "sig_gate_will_execute_differs_6", "sig_gate_async_differs_6", "null_pointer_refused"],
+        thorough=["sig_gate_differs_2", "sig_gate_equal_2", "sig_gate_differs_6", "sig_gate_equal_6", "sig_gate_differs_12", "sig_gate_equal_12", "sig_gate_will_execute_differs_6", "sig_gate_async_differs_6", "null_pointer_refused"],
         premises=["premise_type_names_distinct"],
         outside=["signature strings longer than 12 bytes (the comparison is a byte-wise equality; no length-dependent branch exists in the checked code)"],
     ),
@@ -473,9 +481,9 @@ PROPERTIES = {
         level_text="Stub half: the boolean trampoline is interpreted from a fully symbolic register file / stack pointer / return address (x86-64: `mov rax,imm32; ret`; AArch64: `movz w0,#v; ret`): the solver decides that the low byte of the result register equals the value, control returns to the caller's return address, the stack pointer is as after a normal return, no memory is written and no other register changes, for every placement. Gate half: for EVERY printable-ASCII signature string up to 16 (quick) / 22 (thorough) bytes that an independent parser reads as a fn-pointer type name, will_return_boolean is refused (nothing touched) when the top-level return type is not bool - including return types that merely end in `-> bool` - and accepted when it is exactly bool.",
         level_note="32-bit ARM implements the forced boolean as an ordinary redirect to one of two one-line functions: only the redirect is checked there (C16).",
         premises=["premise_bool_gate_family"],
-        quick=["x64_core_boolean", "a64_core_boolean", "bool_gate_refuses_16", "bool_gate_accepts_16"],
+        quick=["x64_core_boolean", "a64_core_boolean", "bool_gate_refuses_16", "bool_gate_accepts_16", "bool_gate_refuses_not_ending_in_bool_8"],
         thorough=["x64_core_boolean", "a64_core_boolean", "bool_gate_refuses_16", "bool_gate_accepts_16", "bool_gate_refuses_20", "bool_gate_refuses_22", "bool_gate_accepts_22",
-                  "bool_gate_refuses_len15", "bool_gate_refuses_len20", "bool_gate_accepts_len12"],
+                  "bool_gate_refuses_len15", "bool_gate_refuses_len20", "bool_gate_accepts_len12", "bool_gate_refuses_not_ending_in_bool_8"],
         timeout_min={"quick": 30, "thorough": 240},
         outside=["32-bit ARM boolean flavour beyond the redirect being well-formed"],
     ),
@@ -520,7 +528,7 @@ PROPERTIES = {
         level_text="Dirty-bit model decided by the solver: every simulated write marks its bytes dirty, a flush clears the bytes it covers; at return from every installation and from drop no byte may be dirty, and no instruction byte on the interpreted path may be dirty, for every placement and for histories L<=2/3 (x86-64 Linux and 32-bit ARM so far).",
         level_note="Whether __clear_cache itself works is outside. macOS/Windows primitives are not modelled here.",
         premises=["premise_flush_native"],
-        quick=["x64_core_redirect", "x64_core_boolean", "x64_api_hist_l1", "arm_core_a32", "arm_api_same2", "a64_core_boolean"],
+        quick=["x64_core_redirect", "x64_core_boolean", "x64_api_hist_l1", "arm_core_a32", "arm_api_same2", "a64_core_boolean", "panic_at_p2"],
         thorough=["x64_core_redirect", "x64_core_boolean", "x64_api_hist_l2", "x64_api_hist_l3", "arm_core_a32", "arm_core_t32_misaligned", "arm_api_same2", "a64_core_redirect", "a64_core_boolean"],
         outside=["correctness of the platform flush primitive", "macOS and Windows"],
     ),
